@@ -27,7 +27,13 @@ def conv_of_closure(tonic, cl):
     rets = mirlib.returned_terms(cl)
     if len(rets) != 1:
         raise CheckError('UNRECOGNISED: conversion closure %s has %d return definitions' % (cl.path, len(rets)))
-    t = rets[0][1]
+    return conv_of_term(rets[0][1], cl.path)
+
+
+def conv_of_term(t, where):
+    class _W:
+        path = where
+    cl = _W()
     div = 1
     width = 128
     while True:
@@ -69,6 +75,13 @@ def run(R):
             chain.append(term[2][1])
             term = term[2][0]
         chain.reverse()
+        table_form = None
+        if not chain and not is_call(term, name='try_format'):
+            # the ladder as data: [(value in unit, unit); 6].into_iter().find(|(v, _)| v <= MAX).map(format)
+            fnd = [x for x in find_terms(term, lambda x: is_call(x, name='find'))]
+            arr = [x for x in find_terms(term, lambda x: x and x[0] == 'agg' and x[1].get('kind') == 'array')] if fnd else []
+            if len(fnd) == 1 and arr:
+                table_form = (fnd[0], arr[0])
 
         def tf_of(body, tterm):
             # tterm: call term to try_format
@@ -81,9 +94,20 @@ def run(R):
             fn, div, width = conv_of_closure(tonic, cl)
             R.check(width >= FN_WIDTH[fn], 'C09.R1', 'conv-full-width:%s' % unit, site(cl), 'Duration::%s() yields %d bits and reaches the 8-digit test through a %d-bit integer (a narrowing cast wraps: a huge timeout would be written as a tiny one)' % (fn, FN_WIDTH[fn], width))
             return unit, fn, div, cl
-        if not is_call(term, name='try_format'):
+        if table_form:
+            for ent in table_form[1][2]:
+                ent = strip_refs(ent)
+                if ent[0] != 'agg' or ent[1].get('kind') != 'tuple' or len(ent[2]) != 2:
+                    raise CheckError('UNRECOGNISED: candidate entry %s' % show(ent)[:80])
+                unit = const_val(ent[2][1])
+                fn, div, width = conv_of_term(ent[2][0], top.path)
+                R.check(width >= FN_WIDTH[fn], 'C09.R1', 'conv-full-width:%s' % unit, site(top), 'Duration::%s() yields %d bits and reaches the 8-digit test through a %d-bit integer' % (fn, FN_WIDTH[fn], width))
+                R.check(arg_root(find_terms(ent[2][0], lambda x: is_call(x) and x[3] in WRITER_NANOS)[0][2][0]) == 1, 'C09.R1', 'same-duration:%s' % unit, site(top), 'the candidate is computed from the duration argument')
+                ladder.append((unit, fn, div, top, top))
+        elif not is_call(term, name='try_format'):
             raise CheckError('UNRECOGNISED: head of the or_else chain is %s' % show(term))
-        ladder.append(tf_of(top, term) + (top,))
+        else:
+            ladder.append(tf_of(top, term) + (top,))
         for c in chain:
             c = strip_refs(c)
             if c[0] != 'agg' or 'def' not in c[1]:
@@ -110,10 +134,28 @@ def run(R):
             # never denotes a longer time: nanos-per-written-unit must equal nanos of the unit
             R.check(WRITER_NANOS[fn] * div == NANOS[u], 'C09.R1', 'scale:%s' % u, site(cl), '%s/%d counts units of %d ns; unit %s is %d ns' % (fn, div, WRITER_NANOS[fn] * div, u, NANOS[u]))
         R.floor('C09.R1', 'writer rows', len(ladder), 6)
-        tf = tonic.body('request::duration_to_grpc_timeout::try_format')
-        R.saw(tf)
-        sws = [bb for bb in sorted(tf.live_blocks()) if tf.term(bb)['k'] == 'switch']
         okg = False
+        if table_form:
+            # first entry (in array order) whose value is <= 99_999_999: find(|(value, _)| value <= MAX) on the array's own iterator
+            fc = table_form[0]
+            recv = strip_refs(fc[2][0])
+            ordered = is_call(recv, name='into_iter') or is_call(recv, name='iter')
+            clo = strip_refs(fc[2][1])
+            if clo[0] == 'agg' and 'def' in clo[1]:
+                pb = tonic.body(re.compile('^' + re.escape(clo[1]['def']) + '$'))
+                R.saw(pb)
+                prt = mirlib.returned_terms(pb)
+                if len(prt) == 1:
+                    o = mirlib.norm_cmp(prt[0][1])
+                    # value <= MAX  ==  Ge(MAX, value)
+                    okg = ordered and o[0] == 'bin' and ((o[1] == 'Ge' and const_val(strip_refs(o[2])) == sp['max_value']) or (o[1] == 'Gt' and const_val(strip_refs(o[2])) == sp['max_value'] + 1)) and arg_root(strip_refs(o[3])) == 2
+                    R.check(okg, 'C09.R1', 'guard-8-digits', site(pb), 'find(|(value, _)| value <= %d) over the candidates in order: %s' % (sp['max_value'], show(o)[:80]))
+            sws = []
+            tf = top
+        else:
+            tf = tonic.body('request::duration_to_grpc_timeout::try_format')
+            R.saw(tf)
+            sws = [bb for bb in sorted(tf.live_blocks()) if tf.term(bb)['k'] == 'switch']
         for s in sws:
             o = mirlib.norm_cmp(tf.origin(tf.term(s)['on']))
             lhs = strip_refs(o[2]) if o[0] == 'bin' else None
@@ -202,7 +244,9 @@ def run(R):
             elif kind == 'assert' and what.startswith('Overflow::Sub'):
                 # len - 1: guarded by the non-empty test in the and_then closure
                 ne = [c for c in tonic.children(b) if c.calls(name='is_empty')]
-                R.check(bool(ne) and bool(b.calls(name='and_then')), 'C09.R2', 'len-1-discharged', site(b, bb), 'len()-1 preceded by the is_empty() -> Err closure')
+                closure_form = bool(ne) and bool(b.calls(name='and_then'))
+                inline_form = any(is_call(strip_refs(tm), name='is_empty') and vals == [0] for s_, vals, tm in b.edge_guards(bb))
+                R.check(closure_form or inline_form, 'C09.R2', 'len-1-discharged', site(b, bb), 'len()-1 only after the empty value was refused (and_then(is_empty -> Err) closure: %r; is_empty() false edge: %r)' % (closure_form, inline_form))
             else:
                 R.bad('C09.R2', 'panic:%s:%s' % (kind, what), site(b, bb), 'potential panic in the timeout parser on peer input')
         # sign rejection: str::parse::<u64> accepts a leading '+', which the spec grammar does not
@@ -323,21 +367,50 @@ def run(R):
         sleep = [(bb, t) for bb, t in polls if mentions_field(b.origin(t['args'][0]), 'sleep')]
         R.check(len(inner) == 1 and len(sleep) == 1, 'C09.R5', 'two-polls', site(b), 'inner polls: %d, sleep polls: %d' % (len(inner), len(sleep)))
         if len(inner) == 1 and len(sleep) == 1:
-            R.check(b.dominates(inner[0][0], sleep[0][0]), 'C09.R5', 'inner-first', site(b, sleep[0][0]), 'the inner future is polled before the sleep')
-            # sleep poll only on inner Pending edge
-            gs = [(vals, show(t)) for s, vals, t in b.edge_guards(sleep[0][0]) if 'discr' in show(t) and 'inner' in show(t)]
-            R.check(any(v != [0] for v, _ in gs) and bool(gs), 'C09.R5', 'sleep-only-when-inner-pending', site(b, sleep[0][0]), 'guards on the sleep poll: %r' % gs)
-            # TimeoutExpired constructed only behind sleep Ready
-            te = mirlib.aggregates(b, 'TimeoutExpired')
-            for bb, i, p, a, ops in te:
-                gs2 = [(vals, show(t)) for s, vals, t in b.edge_guards(bb) if 'sleep' in show(t) and 'poll' in show(t)]
-                R.check(any(v == [0] for v, _ in gs2), 'C09.R5', 'timeout-behind-sleep-ready', site(b, bb, i), 'guards on TimeoutExpired construction: %r' % gs2)
-            R.floor('C09.R5', 'TimeoutExpired sites', len(te), 1)
-            # the inner Ready value is what is returned on the Ready edge
-            mp = b.calls(name='map_err')
-            R.check(len(mp) == 1 and mp[0][1]['dest']['l'] == 0 and mentions_call(b.origin(mp[0][1]['args'][0]), pat='Future::poll'), 'C09.R5', 'inner-ready-returned', site(b), 'Ready(inner result).map_err(Into::into) is returned')
-            pend = [bb for bb, i, p, a, ops in mirlib.aggregates(b, 'task::Poll', 'Pending') if p['l'] == 0]
-            R.floor('C09.R5', 'Pending returns', len(pend), 1)
+            ib, sb = inner[0][0], sleep[0][0]
+            meta = {}
+            rows = mirlib.path_rows(b, meta=meta)
+            terms = lambda: meta.get('__terms__', {})
+            is_poll_of = lambda t_, fld: t_ is not None and t_[0] == 'discr' and is_call(strip_refs(t_[1]), name='poll') and mentions_field(strip_refs(t_[1])[2][0], fld)
+
+            def builds_timeout(t_):
+                if term_contains(t_, lambda x: x and x[0] == 'agg' and (x[1].get('adt') or '').endswith('TimeoutExpired')):
+                    return True
+                for c_ in find_terms(t_, lambda x: x and x[0] == 'agg' and x[1].get('kind') == 'closure'):
+                    cb_ = [y for y in tonic.bodies if y.path == c_[1].get('def')]
+                    if cb_ and mirlib.aggregates(cb_[0], 'TimeoutExpired'):
+                        return True
+                return False
+            nte = npend = nin = 0
+            for cons, path in rows:
+                vw = cons_view(cons, meta)
+                iv = view_get(vw, lambda k: is_poll_of(terms().get(k), 'inner'))
+                sv = view_get(vw, lambda k: is_poll_of(terms().get(k), 'sleep'))
+                so = view_get(vw, lambda k: terms().get(k) is not None and terms()[k][0] == 'discr' and not is_call(strip_refs(terms()[k][1]), name='poll') and mentions_field(terms()[k], 'sleep') and k in meta and any(n_ == 'Some' for _, n_ in meta[k]))
+                val = mirlib.simplify(b.ret_on_path(path))
+                st = site(b, path[-1])
+                pos = {x: i_ for i_, x in enumerate(path)}
+                if sb in pos:
+                    R.check(ib in pos and pos[ib] < pos[sb], 'C09.R5', 'inner-first', st, 'the inner future is polled before the sleep on this path')
+                    R.check(iv == 'Pending', 'C09.R5', 'sleep-only-when-inner-pending', st, 'the sleep is polled only after the inner future returned Pending (inner: %r)' % iv)
+                if iv == 'Ready':
+                    nin += 1
+                    okr = term_contains(val, lambda y: is_call(y, name='poll') and mentions_field(y[2][0], 'inner')) and not builds_timeout(val) and not term_contains(val, lambda y: is_call(y, name='poll') and mentions_field(y[2][0], 'sleep'))
+                    R.check(okr, 'C09.R5', 'inner-ready-returned', st, 'with the inner future Ready its result is what is returned: %s' % show(val)[:100])
+                elif builds_timeout(val):
+                    nte += 1
+                    direct = term_contains(val, lambda x: x and x[0] == 'agg' and (x[1].get('adt') or '').endswith('TimeoutExpired'))
+                    via_map = is_call(strip_refs(val), name='map') and term_contains(strip_refs(val)[2][0], lambda y: is_call(y, name='poll') and mentions_field(y[2][0], 'sleep'))
+                    R.check(iv == 'Pending' and ((direct and sv == 'Ready') or via_map), 'C09.R5', 'timeout-behind-sleep-ready', st,
+                            'Err(TimeoutExpired) only with the inner future Pending (%r) and the sleep Ready (%r / Poll::map over the sleep poll: %r)' % (iv, sv, via_map))
+                elif val[0] == 'agg' and val[1].get('variant') == 'Pending':
+                    npend += 1
+                    R.check(iv == 'Pending' and (so == 'None' or sv == 'Pending'), 'C09.R5', 'pending-when-both-pending', st, 'Pending with inner %r, sleep option %r, sleep poll %r' % (iv, so, sv))
+                else:
+                    R.bad('C09.R5', 'outcome-unrecognised', st, 'returns %s' % show(val)[:100], kind='UNRECOGNISED')
+            R.floor('C09.R5', 'TimeoutExpired sites', nte, 1)
+            R.floor('C09.R5', 'Pending returns', npend, 1)
+            R.floor('C09.R5', 'inner-ready rows', nin, 1)
 
     # ---------------------------------------------------------------- R6 mapping
     R.describe('C09.R6', 'TimeoutExpired in a source chain -> Status::cancelled(its Display = "Timeout expired"); RecoverError turns an Err carrying a status into a trailers-only response')
